@@ -146,6 +146,8 @@ func (e *Engine) addFramePropObligations() {
 	// ---- C01/C10: the VM's operand stack slots are written only by the evaluate invocation that owns them ----
 	e.stackPrivacyObligations()
 	e.vmRegisterPrivacyObligations()
+	e.tableAlignmentObligations()
+	e.opcodeCoverageObligations()
 	_ = info
 }
 
@@ -798,4 +800,139 @@ func (e *Engine) vmRegisterPrivacyObligations() {
 		"Context.code/codeIndex/stack/top are assigned only on the receiver of evaluate/Parse/RunAfterParsed or on a context fresh from NewVM()", "other writers: "+strings.Join(badW, ", "))
 	e.frameObl("frame:vm-registers-privacy/no-reentry", []string{"C01", "C10"}, len(badRun) == 0, "",
 		"no function reachable from evaluate runs Parse/Run/evaluate on a context other than one fresh from NewVM()", strings.Join(badRun, ", "))
+}
+
+// ---- C02: structural obligations over the typed AST -------------------------------------------------------
+
+// opMethodOf: the operator method the language definition assigns to each binary opcode.
+var opMethodOf = map[string]string{
+	"typeAdd": "OpAdd", "typeSubtract": "OpSub", "typeMultiply": "OpMultiply", "typeDivide": "OpDivide", "typeModulus": "OpModulus",
+	"typeExponentiation": "OpPower", "typeNullCoalescing": "OpNullCoalescing",
+	"typeCompLT": "OpCompLT", "typeCompLE": "OpCompLE", "typeCompEQ": "OpCompEQ", "typeCompNE": "OpCompNE", "typeCompGE": "OpCompGE", "typeCompGT": "OpCompGT",
+	"typeBitwiseAnd": "OpBitwiseAnd", "typeBitwiseOr": "OpBitwiseOr",
+}
+
+func (e *Engine) constInt(name string) (int64, bool) {
+	o, ok := e.P.Pkg.Types.Scope().Lookup(name).(*types.Const)
+	if !ok {
+		return 0, false
+	}
+	s := o.Val().ExactString()
+	var v int64
+	if _, err := fmt.Sscan(s, &v); err != nil {
+		return 0, false
+	}
+	return v, true
+}
+
+// tableAlignmentObligations: binOperator[c - typeAdd] is the method the definition names for opcode c.
+func (e *Engine) tableAlignmentObligations() {
+	var tab *types.Var
+	if o, ok := e.P.Pkg.Types.Scope().Lookup("binOperator").(*types.Var); ok {
+		tab = o
+	}
+	base, okb := e.constInt("typeAdd")
+	if tab == nil || !okb || e.globalsInit[tab] == nil {
+		e.frameObl("struct:binOperator/exists", []string{"C02"}, false, "", "operator table and typeAdd exist", "binOperator or typeAdd not found")
+		return
+	}
+	cl := e.globalsInit[tab]
+	names := make([]string, len(cl.Elts))
+	for i, el := range cl.Elts {
+		if se, ok := el.(*ast.SelectorExpr); ok {
+			names[i] = se.Sel.Name
+		}
+	}
+	var ops []string
+	for k := range opMethodOf {
+		ops = append(ops, k)
+	}
+	sort.Strings(ops)
+	for _, op := range ops {
+		c, ok := e.constInt(op)
+		idx := c - base
+		good := ok && idx >= 0 && int(idx) < len(names) && names[idx] == opMethodOf[op]
+		got := "<out of table>"
+		if ok && idx >= 0 && int(idx) < len(names) {
+			got = names[idx]
+		}
+		e.frameObl("struct:binOperator/"+op, []string{"C02"}, good, e.posStr(cl.Pos()),
+			fmt.Sprintf("binOperator[%s-typeAdd] is (*VMValue).%s", op, opMethodOf[op]), fmt.Sprintf("entry %d is %s", idx, got))
+	}
+	e.frameObl("struct:binOperator/immutable", []string{"C02", "C11"}, !e.effects.GlobalWritten[tab], e.posStr(tab.Pos()),
+		"the operator table is never assigned after initialisation", "binOperator is assigned somewhere")
+	// the VM dispatches the whole contiguous range typeAdd..typeBitwiseOr through the table
+	lo, _ := e.constInt("typeAdd")
+	hi, _ := e.constInt("typeBitwiseOr")
+	e.frameObl("struct:binOperator/range", []string{"C02"}, int(hi-lo)+1 == len(names), e.posStr(cl.Pos()),
+		"the opcodes typeAdd..typeBitwiseOr are exactly as many as the table has entries", fmt.Sprintf("%d opcodes, %d entries", hi-lo+1, len(names)))
+}
+
+// opcodeCoverageObligations: every opcode some parser action can emit has a case in the VM's dispatch switch.
+func (e *Engine) opcodeCoverageObligations() {
+	info := e.P.Info
+	ev := e.P.Funcs["(*Context).evaluate"]
+	if ev == nil {
+		return
+	}
+	handled := map[string]bool{}
+	ast.Inspect(ev.Decl.Body, func(n ast.Node) bool {
+		sw, ok := n.(*ast.SwitchStmt)
+		if !ok || sw.Tag == nil {
+			return true
+		}
+		if t := info.TypeOf(sw.Tag); t == nil || e.typeStr(t) != "CodeType" {
+			return true
+		}
+		for _, c := range sw.Body.List {
+			for _, x := range c.(*ast.CaseClause).List {
+				if id, ok := x.(*ast.Ident); ok {
+					handled[id.Name] = true
+				}
+			}
+		}
+		return true
+	})
+	// emission sites: WriteCode(typeX, ...) / AddOp(typeX) anywhere in functions reachable from the grammar actions
+	var roots []*types.Func
+	for _, fi := range e.P.Funcs {
+		if fi.Obj != nil && fi.File == "roll.peg.go" {
+			roots = append(roots, fi.Obj)
+		}
+	}
+	reach := e.reachable(roots)
+	emitted := map[string]string{}
+	for fn := range reach {
+		fi := e.P.FuncByObj[fn]
+		if fi == nil {
+			continue
+		}
+		ast.Inspect(fi.Decl.Body, func(n ast.Node) bool {
+			ce, ok := n.(*ast.CallExpr)
+			if !ok || len(ce.Args) == 0 {
+				return true
+			}
+			se, ok := ce.Fun.(*ast.SelectorExpr)
+			if !ok || (se.Sel.Name != "WriteCode" && se.Sel.Name != "AddOp") {
+				return true
+			}
+			if id, ok := ce.Args[0].(*ast.Ident); ok {
+				if c, ok := info.Uses[id].(*types.Const); ok && e.typeStr(c.Type()) == "CodeType" {
+					if _, dup := emitted[id.Name]; !dup {
+						emitted[id.Name] = fi.Key + "@" + e.posStr(ce.Pos())
+					}
+				}
+			}
+			return true
+		})
+	}
+	var ops []string
+	for k := range emitted {
+		ops = append(ops, k)
+	}
+	sort.Strings(ops)
+	for _, op := range ops {
+		e.frameObl("struct:opcode-coverage/"+op, []string{"C02", "C08"}, handled[op], "",
+			"opcode "+op+" (emitted by "+emitted[op]+") has a case in the VM", "no case for "+op+" in evaluate")
+	}
 }
